@@ -50,12 +50,20 @@
 (* a size, 0 = near the threshold, otherwise the length in bytes of a large *)
 (* value (around the 64 KiB snappy block, 512 KiB, 1 MiB, several MiB);     *)
 (* large values are compressible ("comp2") or not ("incomp").               *)
+(* OwnFrame = TRUE: header and stream are put together in storage that     *)
+(*            belongs to this compression (the code: the header is written  *)
+(*            into the scratch buffer, the stream behind it); FALSE: a      *)
+(*            frame with a SHORT stream (values of class comp1 near the     *)
+(*            threshold: a few dozen bytes of stream) is put together in    *)
+(*            storage shared by all compressions of the process, so it is   *)
+(*            rewritten when another connection's writer compresses at the  *)
+(*            same instant (busy).                                          *)
 (* ReadLimit = 0: decompression hands back everything (the code); S > 0: a  *)
 (*            decompressed value is cut to its first S bytes.               *)
 (***************************************************************************)
 EXTENDS Naturals, Sequences, FiniteSets, TLC
 
-CONSTANTS Keys, MaxOps, MaxRedirects, FixOnce, MaxVals, HookDepth, OwnBytes, Nodes, ConnConfig, BareUpdate, Sizes, ReadLimit
+CONSTANTS Keys, MaxOps, MaxRedirects, FixOnce, MaxVals, HookDepth, OwnBytes, Nodes, ConnConfig, BareUpdate, Sizes, ReadLimit, OwnFrame
 
 \* value classes (relative to the configured threshold)
 \*  small  : shorter than the threshold                       -> never compressed
@@ -136,9 +144,11 @@ Write(k, vals, szs, r, busy, via) ==
          \* the value compression is entered (and the scratch buffer taken) for every value of at least threshold bytes
          taken(j) == n > 0 /\ vals[j] # "small"
          \* the compressed bytes of position i are gone when the scratch buffer was rewritten before the request is encoded
-         lost(i) == /\ ~OwnBytes /\ layersOf(i) > 0
-                    /\ \/ \E j \in (i + 1)..Len(vals) : taken(j)
-                       \/ busy
+         lost(i) == \/ /\ ~OwnBytes /\ layersOf(i) > 0
+                       /\ \/ \E j \in (i + 1)..Len(vals) : taken(j)
+                          \/ busy
+                    \* a short frame put together in shared storage while another writer does the same
+                    \/ ~OwnFrame /\ layersOf(i) > 0 /\ vals[i] = "comp1" /\ szs[i] = 0 /\ busy
      IN /\ stored' = [stored EXCEPT ![k] = [i \in 1..Len(vals) |-> [cls |-> vals[i], layers |-> layersOf(i), ok |-> ~lost(i), size |-> szs[i]]]]
         /\ packedOff' = (packedOff \/ (cfg # "enabled" /\ \E i \in 1..Len(vals) : layersOf(i) > 0))
   /\ UNCHANGED <<cfg, asked, conn, everEnabled, lastRead, lastReadOk, lastReadCfg>>
